@@ -286,6 +286,22 @@ PROPS["C02"] = dict(
     assumptions=["64-bit big.Word (the 32-bit branches of FromBigInt are dead on this platform and not modelled)"],
 )
 
+PROPS["C05"] = dict(
+    n_quick=4000, n_thorough=400000, shards=8, coq_dirs=["C05"], level="translation_validation",
+    rule="cases: a fixed corpus of degenerate pairs (identical, abutting, touching at a vertex, nested, empty operands, zero-area contour), then "
+         "(3/4) rectilinear pairs: each operand 1-3 contours (rectangles in both orientations, staircases of 6-10 vertices, a hole inside a big "
+         "rectangle), integer vertices in [-4,14], float32 and float64, all four operations; the result must be rectilinear with integer "
+         "vertices and be accepted by the extracted validator (one centre per unit cell of the joint bounding box extended by one cell); "
+         "(1/4) general position: 1-2 contours of 3-6 vertices on the 1/8 grid (self-crossing allowed); the extracted exact membership "
+         "function is evaluated at up to 120 points on the 1/64 grid that keep a margin of 0.02 from every edge of A, B and the result. "
+         "non-trivial = every case; distinct = distinct case text",
+    trivial_class=r"(^bad$|^exn$)",
+    trusted_base=["no model of the Vatti/GPC sweep (xmath/geom/poly): each result is validated after the fact; for rectilinear integer inputs by a validator whose soundness is a Coq theorem, for general position by sampling with the extracted exact oracle (a test)",
+                  "float vertices are exact dyadic rationals: the driver scales them to integers before calling the extracted functions",
+                  "the margin (0.02) and the sample points of the general-position stream are the driver's; points nearer to an edge are not examined"],
+    assumptions=["even-odd fill rule; points on an edge follow the half-open crossing rule in the validator (the property itself excludes them)"],
+)
+
 # properties not (yet) claimed, with the reason; an entry is dropped automatically once the property is in PROPS
 NOT_APPLICABLE = {
     "C%02d" % i: "not yet built in this development (model and correspondence harness pending); see DESIGN.md section 22"
@@ -293,6 +309,17 @@ NOT_APPLICABLE = {
 }
 
 MANIFEST_TEXT = {
+    "C05": dict(
+        level_text="Translation validation with a verified validator: the sweep-line clipper is not modelled; instead every result it returns "
+                   "for rectilinear integer polygons (any number of contours, holes, shared and abutting edges, both float types, all four "
+                   "operations) is checked by an extracted validator, and a Coq theorem proves that acceptance implies that the result is the "
+                   "pointwise Boolean combination at EVERY rational point of the plane (membership is constant on unit cells and cells "
+                   "beyond the bounding box behave like bordering ones). General-position inputs are checked at margin-safe sample points "
+                   "with the extracted exact even-odd oracle (a test, not a proof). No panic, operands untouched, empty region gives an "
+                   "empty polygon.",
+        level_note="The universally quantified statement holds per validated run and for the rectilinear integer family only; nothing is proved "
+                   "about the clipper for inputs that were not run; general position is sampled.",
+        technique="Coq proof of a result validator's soundness (translation validation per run) + exact extracted membership oracle"),
     "C02": dict(
         level_text="Proof: String then FromString is the identity for all 2^128 values of both types; FromBigInt returns the exact value in range "
                    "and the nearest bound otherwise, for every integer, and AsBigInt/FromBigInt round-trips; FromFloat64 of every finite double "
